@@ -29,7 +29,7 @@ RULE = ('one case = one history of 20-200 operations on one interpreter whose ca
         'evaluated on each other\'s targets (the 8 fixed pairs built directly in Python are also compared with their '
         'documented result); observed: a deep snapshot (every attribute of every spec object, recursively, by '
         'structure and identity, incl. the mapping handed to Vars) of the spec graph and of the caller\'s scope mapping '
-        'before/after, the reads replayed through the Lean heap model of Vars; (b) instances of a generated class '
+        '(and of the list passed as path=) before/after, the reads replayed through the Lean heap model of Vars; (b) instances of a generated class '
         'hierarchy (3-6 classes, chains / diamonds, MRO as Python computed it) reached by string paths, list specs and '
         'iteration, evaluated through the module-level registry and 0-2 Glommers, with registrations of tagged get / '
         'iterate handlers for a class, one of its bases or subclasses, or an unrelated class between the calls '
@@ -148,6 +148,8 @@ def holder_entry(rng, g):
         entry['vars_model'] = {'base': base, 'defaults': defaults, 'ops': ops}
     if rng.random() < 0.4:
         entry['scope'] = [[rng.choice(VNAMES), jv(rng.choice([1, 'cs', [3]]))]]
+    if rng.random() < 0.3:
+        entry['cpath'] = rng.choice([[], ['p0'], ['p0', 1]])      # glom(..., path=<the caller's list>)
     return entry
 
 
@@ -160,6 +162,8 @@ def binder_entry(rng):
     entry = {'target': ic.enc(t), 'spec': g.spec(t, 2), 'holder': True}
     if rng.random() < 0.5:
         entry['scope'] = [[n, ic.enc(rng.choice([1, 'cs', [3], {'m': 1}]))] for n in rng.sample(Gen.POOL, rng.randint(1, 2))]
+    if rng.random() < 0.3:
+        entry['cpath'] = rng.choice([[], ['p0'], ['p0', 1]])
     return entry
 
 
@@ -483,18 +487,20 @@ def deep_snapshot(obj, seen=None):
     return (tn, id(obj), [(n, deep_snapshot(attrs[n], seen)) for n in sorted(attrs)])
 
 
-def outcome(target, spec, star, call=None, scope=None):
+def outcome(target, spec, star, call=None, scope=None, path=None):
     import glom
     import glom.core as gc
     gc.PATH_STAR = star
     del ic.LOG[:]
+    kw = {}
+    if scope is not None:
+        kw['scope'] = scope
+    if path is not None:
+        kw['path'] = path
     try:
         with warnings.catch_warnings():
             warnings.simplefilter('ignore')
-            if scope is not None:
-                res = (call or glom.glom)(target, spec, scope=scope)
-            else:
-                res = (call or glom.glom)(target, spec)
+            res = (call or glom.glom)(target, spec, **kw)
         out = {'ok': ic.enc(res)}
     except Exception as e:
         out = {'err': ic.exc_name(e)}
@@ -572,14 +578,14 @@ def run_impl(case):
     reg_hist = [[] for _ in range(n_regs)]        # per registry: (class, handlers) in registration order
 
     def build_entry(entry):
-        """-> (target, spec, caller's scope mapping or None)"""
+        """-> (target, spec, caller's scope mapping or None, caller's path list or None)"""
         if 'py' in entry:
             tb, sb, _ = _py_pool()[entry['py']]
-            return (tb(), sb(), None)
+            return (tb(), sb(), None, None)
         fns = {}
         t = dec_o(entry['otarget'], klasses, fns) if 'otarget' in entry else ic.dec(entry['target'], fns)
         sc = {n: ic.dec(v, fns) for n, v in entry['scope']} if entry.get('scope') else None
-        return (t, build06(entry['spec'], fns), sc)
+        return (t, build06(entry['spec'], fns), sc, list(entry['cpath']) if 'cpath' in entry else None)
     objs = [build_entry(e) for e in case['pool']]
     first = {}
     fresh_jobs = []
@@ -616,7 +622,7 @@ def run_impl(case):
                 entry = case['pool'][op['idx']]
                 r = op.get('reg', 0)
                 call = glom.glom if r == 0 else glommers[r - 1].glom
-                t, s, sc = objs[op['idx']]
+                t, s, sc, cp = objs[op['idx']]
                 if 'tidx' in op:
                     t = objs[op['tidx']][0]          # the same spec object on another target
                 if r != 0:
@@ -625,21 +631,21 @@ def run_impl(case):
                 before = (snapshot(t), repr(s), snapshot(s) if isinstance(s, (list, tuple, dict)) else None,
                           deep_snapshot(t))
                 g_before = deep_snapshot(s)
-                sc_before = deep_snapshot(sc)
-                oc = outcome(t, s, gc.PATH_STAR, call, sc)
+                sc_before = [deep_snapshot(sc), deep_snapshot(cp)]
+                oc = outcome(t, s, gc.PATH_STAR, call, sc, cp)
                 after = (snapshot(t), repr(s), snapshot(s) if isinstance(s, (list, tuple, dict)) else None,
                          deep_snapshot(t))
                 o['inputs_unchanged'] = (before == after)
                 o['spec_graph_unchanged'] = (g_before == deep_snapshot(s))
-                o['scope_unchanged'] = (sc_before == deep_snapshot(sc))
+                o['scope_unchanged'] = (sc_before == [deep_snapshot(sc), deep_snapshot(cp)])
                 # texts this call parsed and stored (the model replays them to stay in step)
                 o['impl_new_keys'] = sorted([b, k] for b in (True, False)
                                             for k in set(Path._CACHE[b]) - keys_before[b])
                 # outcome must not depend on the history of this spec *object*: compare with freshly
                 # built, structurally identical objects evaluated right now
                 t2 = build_entry(case['pool'][op.get('tidx', op['idx'])])[0]
-                _, s2, sc2 = build_entry(entry)
-                oc2 = outcome(t2, s2, gc.PATH_STAR, call, sc2 if r == 0 else None)
+                _, s2, sc2, cp2 = build_entry(entry)
+                oc2 = outcome(t2, s2, gc.PATH_STAR, call, sc2 if r == 0 else None, cp2)
                 o['same_as_rebuilt'] = (strip_fn_names(oc2) == strip_fn_names(oc))
                 if 'py' in entry and 'tidx' not in op:
                     # a fixed (target, spec) pair: the result is known whatever came before
